@@ -379,6 +379,15 @@ DSAlgebra(D, op, res) ==
      /\ DNoRepeat(res.ret.y) /\ DRange(res.ret.y) = want
      /\ res.ret.sub = (A \subseteq B) /\ res.ret.sup = (B \subseteq A) /\ res.ret.dis = (A \cap B = {})
 
+\* the container against ANOTHER container of a different capacity holding the entries op.b
+\* ([class, value content], in an unrelated slot order): ==, != and == the other way round tell
+\* whether the two hold the same key-value pairs - nothing else matters (C14)
+DEqOther(D, op, res) ==
+  LET mine == {<<e.c, e.v>> : e \in D}
+      theirs == {<<x[1], x[2]>> : x \in DRange(op.b)}
+      eq == mine = theirs
+  IN Same(res, D) /\ res.ret = <<"eqs", eq, ~eq, eq>>
+
 \* ------------------------------------------------------------ dispatch --
 DictAllows(D, cap, op, res) ==
   CASE op.name = "insert"           -> DInsert(D, cap, op.k, op.v, res)
@@ -400,6 +409,7 @@ DictAllows(D, cap, op, res) ==
     [] op.name = "s_default"        -> DSClear(D, res)
     [] op.name = "with_capacity"    -> IF op.c = cap THEN DClear(D, res) ELSE Out(res, <<"panic">>, D, {}, {})
     [] op.name = "s_algebra"        -> DSAlgebra(D, op, res)
+    [] op.name \in {"eq_other", "s_eq_other"} -> DEqOther(D, op, res)
     [] op.name \in {"eq_clone", "s_eq_clone"} -> Same(res, D) /\ Is(res.ret, <<"b", TRUE>>)    \* a container equals its own clone, both ways
     [] op.name = "iter_defaults"    -> Same(res, D) /\ res.ret[1] = "lens" /\ \A i \in 1..Len(res.ret[2]) : res.ret[2][i] = 0
     [] op.name = "s_drop"           -> DSClear(D, res)
